@@ -135,7 +135,13 @@ impl SymbolsExportsModule {
         files: &mut R,
         visited: &mut Vec<BffFileName>,
     ) -> Option<Rc<SymbolExport>> {
-        let known = self.named_values.get(name).cloned().or_else(|| {
+        // an explicit export of the name (also a re-export whose kind is not known yet) shadows `export *`
+        let explicit = self
+            .named_values
+            .get(name)
+            .cloned()
+            .or_else(|| self.named_unknown.get(name).cloned());
+        explicit.or_else(|| {
             for it in &self.extends {
                 if visited.contains(it) {
                     continue;
@@ -150,9 +156,7 @@ impl SymbolsExportsModule {
                 }
             }
             None
-        });
-
-        known.or_else(|| self.named_unknown.get(name).cloned())
+        })
     }
 
     pub fn insert_type(&mut self, name: String, export: Rc<SymbolExport>) {
@@ -185,7 +189,13 @@ impl SymbolsExportsModule {
         files: &mut R,
         visited: &mut Vec<BffFileName>,
     ) -> Option<Rc<SymbolExport>> {
-        let known = self.named_types.get(name).cloned().or_else(|| {
+        // an explicit export of the name (also a re-export whose kind is not known yet) shadows `export *`
+        let explicit = self
+            .named_types
+            .get(name)
+            .cloned()
+            .or_else(|| self.named_unknown.get(name).cloned());
+        explicit.or_else(|| {
             for it in &self.extends {
                 if visited.contains(it) {
                     continue;
@@ -200,9 +210,7 @@ impl SymbolsExportsModule {
                 }
             }
             None
-        });
-
-        known.or_else(|| self.named_unknown.get(name).cloned())
+        })
     }
 
     pub fn extend(&mut self, other: BffFileName) {
